@@ -90,6 +90,13 @@ def run(ctx, progs):
                     deleg_ok = True
                 elif kind_of_err(b, t):
                     eof_ok = False
+            # the same delegation written as `self.read_volatile(buf)?; Ok(())` / a match
+            from .. import outcomes
+            from ..checks import succeeded
+            oks = [(pos, t) for pos, t in b.return_terms() if deep_strip(t)[0] == 'agg' and deep_strip(t)[2] == 'Ok']
+            if not deleg_ok and len(oks) == 1:
+                deleg_ok = any(match(C("ReadVolatile::read_volatile", P(1), P(2)), s, {}) for s in succeeded(b, oks[0][0])) and \
+                    sum(1 for c in b.calls() if canon(c.target or "").endswith("ReadVolatile::read_volatile")) == 1
             ctx.ob("R13.1.slice_read_exact", b.key, eof_ok and deleg_ok, b.where(),
                    f"Err(UnexpectedEof) exactly when buf.len() > self.len() (strict) [{eof_ok}]; otherwise read_volatile(buf).map(|_| ()) [{deleg_ok}]")
         # ------------------------------------------------------------------ &mut [u8] : WriteVolatile
